@@ -115,7 +115,9 @@ func (k Keeper) HandleUpgrade(ctx sdk.Ctx, aclKey string, paramValue interface{}
 				ctx.Logger().Error(fmt.Sprintf("unable to convert %v to upgrade, can't emit event about upgrade, at height: %d", paramValue, ctx.BlockHeight()))
 				return sdk.Result{Events: ctx.EventManager().Events()}
 			}
-			codec.UpgradeHeight = u.Height
+			if !ctx.IsPrevCtx() { // a simulated message (app/simulate query) must not touch the process-wide schedule
+				codec.UpgradeHeight = u.Height
+			}
 			ctx.EventManager().EmitEvent(sdk.NewEvent(
 				types.EventUpgrade,
 				sdk.NewAttribute(sdk.AttributeKeyModule, types.ModuleName),
@@ -183,9 +185,11 @@ func handleUpgradeAfterUpdate(ctx sdk.Ctx, aclKey string, paramValue interface{}
 			ctx.Logger().Error(fmt.Sprintf("unable to convert %v to upgrade, can't emit event about upgrade, at height: %d", paramValue, ctx.BlockHeight()))
 			return sdk.Result{Events: ctx.EventManager().Events()}
 		}
-		codec.UpgradeHeight = newUpgrade.Height
-		codec.OldUpgradeHeight = newUpgrade.OldUpgradeHeight
-		codec.UpgradeFeatureMap = codec.SliceToExistingMap(newUpgrade.GetFeatures(), codec.UpgradeFeatureMap)
+		if !ctx.IsPrevCtx() { // a simulated message (app/simulate query) must not touch the process-wide schedule
+			codec.UpgradeHeight = newUpgrade.Height
+			codec.OldUpgradeHeight = newUpgrade.OldUpgradeHeight
+			codec.UpgradeFeatureMap = codec.SliceToExistingMap(newUpgrade.GetFeatures(), codec.UpgradeFeatureMap)
+		}
 		ctx.EventManager().EmitEvent(sdk.NewEvent(
 			types.EventUpgrade,
 			sdk.NewAttribute(sdk.AttributeKeyModule, types.ModuleName),
